@@ -141,8 +141,8 @@ class Prop:
     case_module = "CaseC06"
     case_vo = "theories/Cases/CaseC06.vo"
     run_fn = "run06"
-    post_variants = {"quick": 40, "thorough": 120}
-    post_ops = ("move", "sort", "add")      # start nodes are named by allocation index: nothing may disappear
+    post_variants = {"quick": 30, "thorough": 120}
+    post_ops = None     # every post operation, removals included (selections are relative and clipped to the tree at hand)
     shard = 8
     rule = ("clone / equal-data labelings of every shape with 2..5 (thorough 6) nodes: one object everywhere under distinct explicit ids, "
             "same object at several depths / in cousins, value-equal distinct objects, and 'last child carries the data of the node "
@@ -255,7 +255,7 @@ class Prop:
                     for _nm, vuniv, vnodes in variants:
                         yield dict(typed=False, univ=vuniv, nodes=vnodes, sn=lsn, sk=lsk, sel=lsel)
         nrand = 18 if quick else 45
-        top = 60 if quick else 200
+        top = 45 if quick else 200
         for j in range(nrand):
             n = rng.randint(8, top if j % 3 == 0 else max(8, top // 3))
             shape = H.random_shape(rng, n, deep=rng.choice([0.15, 0.5, 0.9]))
@@ -306,10 +306,11 @@ class Prop:
         def ab(i):
             return 0 if i == 0 else H.nid(by_rel[i])
 
-        istarts = [ab(i) for i in sel["istarts"]]
-        vstarts = [ab(i) for i in sel["vstarts"]]
-        sigs = {ab(i) for i in sel["sigs"]}
-        counts = list(sel["counts"])
+        # (a history with removals may leave fewer nodes than the selection was made for)
+        istarts = [ab(i) for i in sel["istarts"] if i <= n]
+        vstarts = [ab(i) for i in sel["vstarts"] if i <= n]
+        sigs = {ab(i) for i in sel["sigs"] if i <= n}
+        counts = [k for k in sel["counts"] if k <= n]
         sn, sk = desc["sn"], desc["sk"]
         stats = dict(nodes=n, depth=B.nodes_depth(desc["nodes"]), visits=0, skip_effective=0, stop_effective=0)
 
@@ -582,8 +583,112 @@ class Prop:
                 if f2:
                     fail = f"query - mutate {ops} - query again: {f2}"
                     break
+        if fail is None:
+            fail = self.registry_histories(desc, tree, U)
         return Case(desc=desc, coq_input=coq, impl_obs=obs, oracle_fail=fail,
                     nontrivial=stats["skip_effective"] + stats["stop_effective"] > 0, key=key, stats=stats)
+
+    # ----- UNORDERED / RANDOM_ORDER / get_random_node read the registry: after histories of adds and removals at every
+    # registration position they must still be the reachable, live nodes (by identity; none deleted, none missing)
+    @staticmethod
+    def unordered_ok(tree, what):
+        live = B.all_nodes(tree._root)
+        want = sorted(id(x) for x in live)
+        lim = 10 * (len(live) + 1) + 10
+
+        def show(xs):
+            return [("deleted:" if x._tree is None else "") + str(H.nid(x)) for x in xs]
+
+        for m in (IterMethod.UNORDERED, IterMethod.RANDOM_ORDER):
+            try:
+                got = list(itertools.islice(tree.iterator(m), lim + 1))
+            except Exception as e:  # noqa: BLE001
+                return f"{what}: tree.iterator({m.value}) raises {type(e).__name__}"
+            if sorted(id(x) for x in got) != want:
+                return (f"{what}: tree.iterator({m.value}) yields {show(got)}, the reachable nodes are {show(live)}")
+        pre = [id(x) for x in itertools.islice(tree.iterator(), lim + 1)]
+        if pre != [id(x) for x in live]:
+            return f"{what}: tree.iterator() is not the pre-order of the reachable nodes"
+        if tree.count != len(live) or len(tree) != len(live):
+            return f"{what}: tree.count / len(tree) = {tree.count} / {len(tree)}, reachable nodes: {len(live)}"
+        if live:
+            for _ in range(4):
+                r = tree.get_random_node()
+                if not any(r is x for x in live):
+                    return f"{what}: get_random_node() returns {show([r])}, not a reachable node of {show(live)}"
+        return None
+
+    def registry_histories(self, desc, tree, U):
+        typed = bool(desc.get("typed"))
+        n0 = len(B.all_nodes(tree._root))
+        random.seed(31 * n0 + len(str(desc["nodes"])))
+        # (a) on the tree at hand: a chain of removals aimed at registration positions (next to last, first, last,
+        #     middle, ...), each followed by the check; then adds, clear, add again
+        hist = []
+        for step in range(min(n0, 8)):
+            reg = list(tree._node_by_id.values())
+            if not reg:
+                break
+            pos = [len(reg) - 2, 0, len(reg) - 1, len(reg) // 2][step % 4] % len(reg)
+            op = ["remove_keep", "remove", "remove_children", "remove_keep"][(step + n0) % 4]
+            target = reg[pos]
+            hist.append(f"{op}(registered #{pos} of {len(reg)})")
+            try:
+                if op == "remove":
+                    target.remove()
+                elif op == "remove_keep":
+                    target.remove(keep_children=True)
+                else:
+                    target.remove_children()
+            except Exception:  # noqa: BLE001  (refused, e.g. keep_children on typed trees or a sibling clash)
+                hist[-1] += " refused"
+            f = self.unordered_ok(tree, "after " + ", ".join(hist))
+            if f:
+                return f
+        B.apply_post(tree, U, [["add", -1, 0, "a", None], ["add", 0, 1, "b", 0]], typed)
+        f = self.unordered_ok(tree, "after " + ", ".join(hist) + ", add, add")
+        if f:
+            return f
+        tree.clear()
+        f = self.unordered_ok(tree, "after clear()")
+        if f:
+            return f
+        B.apply_post(tree, U, [["add", -1, 0, "a", None], ["add", 0, 1, "b", None], ["add", -1, 2, "a", None], ["remove", 1]], typed)
+        f = self.unordered_ok(tree, "after clear(), add, add, add, remove")
+        if f:
+            return f
+        # (b) fresh builds of the same description: remove the k-th registered node, for every k on small trees
+        #     (first, middle, next to last, last on larger ones), in each of the three ways; then once more
+        ks = range(n0) if n0 <= 6 else sorted({0, n0 // 2, n0 - 2, n0 - 1})
+        if n0 > 6:
+            ops = ["remove_keep", "remove", "remove_children"][n0 % 3:][:1]
+        else:
+            ops = ["remove_keep", "remove", "remove_children"]
+        for k in ks:
+            for op in ops:
+                t2, _U2 = B.build(desc)
+                reg = list(t2._node_by_id.values())
+                if k >= len(reg):
+                    continue
+                what = f"fresh build, {op}(registered #{k} of {len(reg)})"
+                for rep in range(2):
+                    reg = list(t2._node_by_id.values())
+                    if not reg:
+                        break
+                    target = reg[min(k, len(reg) - 1)] if rep == 0 else reg[max(0, len(reg) - 2)]
+                    try:
+                        if op == "remove":
+                            target.remove()
+                        elif op == "remove_keep":
+                            target.remove(keep_children=True)
+                        else:
+                            target.remove_children()
+                    except Exception:  # noqa: BLE001
+                        pass
+                    f = self.unordered_ok(t2, what + (", then the same on the next-to-last registered" if rep else ""))
+                    if f:
+                        return f
+        return None
 
     # ----- the property statement, executed on pointer structure
     def oracle(self, tree, nodes, istarts, vstarts, sigs, counts, sn, sk, obs, side):
